@@ -136,7 +136,8 @@ def run(ctx):
     for c in classes:
         it = Interp(prog, exc_edges=False, self_cls=c)
         paths = it.run(mfi)
-        marshal_rules(ctx, c, mfi, paths, selft)
+        done = header_typing_unrolled(ctx, c, mfi)
+        marshal_rules(ctx, c, mfi, paths, selft, skip_typing=done)
     reader_rules(ctx, classes)
     serial_rules(ctx)
     constructor_rules(ctx, classes)
@@ -162,7 +163,7 @@ def wrapper_sig(prog, t):
     return None
 
 
-def marshal_rules(ctx, c, mfi, paths, selft):
+def marshal_rules(ctx, c, mfi, paths, selft, skip_typing=False):
     prog = ctx.prog
     q = mfi.qualname
     cname = c.name
@@ -172,9 +173,10 @@ def marshal_rules(ctx, c, mfi, paths, selft):
     for p in paths:
         if p.outcome == 'raise':
             continue
-        # --- D2: header typing in the field loop
+        # --- D2: header typing in the field loop (fallback when the loop
+        # over the header table could not be unrolled)
         for ev in p.trace:
-            if ev[0] != 'loop':
+            if ev[0] != 'loop' or skip_typing:
                 continue
             for bp in ev[4]:
                 apps = [e for e in bp.trace if e[0] == 'mutate' and
@@ -395,6 +397,67 @@ def marshal_rules(ctx, c, mfi, paths, selft):
         ctx.ob('C03.D3', q, 'flags-table:%s' % cname, False,
                'could not extract the flags byte for the combinations of '
                'expectReply/autoStart (got %d)' % len(flag_rows))
+
+
+def header_typing_unrolled(ctx, c, mfi):
+    """D2 with the loop over the (constant) header table unrolled: every
+    header attribute present, descriptors present.  Independent of how the
+    wrapping is spelled (if/elif chain, dict of wrappers, ...).  Returns False
+    when the table does not unroll (the summarised loop is used instead)."""
+    prog = ctx.prog
+    selft = ('param', 'self')
+    okh, rows = try_py(class_const(prog, c, '_headerAttrs'))
+    if not okh:
+        return False
+    names = [r[0] for r in rows] + ['unix_fds']
+    heap = {(selft, n): ('inst', '<%s>' % n, None) for n in names}
+    it = Interp(prog, exc_edges=False, self_cls=c, unroll_const=True)
+    try:
+        paths = it.run(mfi, {'oobFDs': ('inst', '<oobFDs>', None)},
+                       state=State(heap=heap))
+    except AnalysisError:
+        return False
+    found = {}
+    for p in paths:
+        if p.outcome == 'raise':
+            continue
+        hl = p.state.heap.get((selft, 'headers'))
+        if kind(hl) != 'list' or not all(kind(x) == 'item' for x in hl[1]):
+            return False
+        for x in hl[1]:
+            v = x[1]
+            if kind(v) != 'list' or len(v[1]) != 2 or \
+                    not is_const(v[1][0][1]):
+                return False
+            found.setdefault(v[1][0][1][1], set()).add(v[1][1][1])
+    if not found:
+        return False
+    q = mfi.qualname
+    for code, (name, wtype) in spec.HEADER_FIELDS.items():
+        if wtype == 's' or name not in names:
+            continue
+        vals = found.get(code)
+        if vals is None:
+            if name == 'unix_fds':
+                continue    # added only on the descriptor path
+            ctx.ob('C03.D2', q, 'typed:%s:%s' % (c.name, name), False,
+                   'header field %r never reaches the header list' % name)
+            continue
+        for hval in vals:
+            ws = wrapper_sig(prog, hval)
+            ok = ws == wtype
+            why = ''
+            if not ok and ws is None:
+                ok, why = all_stores_wrapped(prog, name, wtype)
+            ctx.ob('C03.D2', q, 'typed:%s:%s' % (c.name, name), ok,
+                   'header field %r (wire type %r) reaches the header list '
+                   'as %s%s' % (
+                       name, wtype,
+                       'a value wrapped for %r' % ws if ws else
+                       'an unwrapped value (a variant then infers its type '
+                       'from the Python value: an int becomes INT32 "i")',
+                       why))
+    return True
 
 
 def all_stores_wrapped(prog, attr, wtype):
